@@ -330,6 +330,17 @@ M("M60: splat.Read block reader, decode window only half covered by the bound (o
 R("R26: splat.Read block reader bounded in whole records (offset+32 <= n); a partial tail is reported as io.ErrUnexpectedEOF",SPL,SPLAT_HEAD,SPLAT_BLOCK_ERR)
 R("R27: splat.Read block reader bounded in whole records; a partial tail is dropped silently (exactly the whole records: allowed by the property)",SPL,SPLAT_HEAD,SPLAT_BLOCK_DROP,note="behaviour change the property permits")
 
+# ---- round 4: a missing token is an error, never a default (TOK-2) ----
+R41=[('formats/ply/reader.go', '\tRead(buf []string, i int64) error\n}\n\ntype binaryPropertyReader interface {\n\tbuiltPropertyReader\n\tRead(buf []byte, i int64)\n', '\tRead(buf []string, i int64) error\n}\n\n// asciiField parses the value found in the given column of an ASCII element\n// line on behalf of the named property.\nfunc asciiField(buf []string, column int, property string) (float64, error) {\n\tif column >= len(buf) {\n\t\treturn 0, fmt.Errorf("line has %d values, none left for property %q: %w", len(buf), property, io.ErrUnexpectedEOF)\n\t}\n\treturn strconv.ParseFloat(buf[column], 32)\n}\n\ntype binaryPropertyReader interface {\n\tbuiltPropertyReader\n\tRead(buf []byte, i int64)\n'), ('formats/ply/reader.go', '\t\t\t}\n\n\t\t\tcontents := strings.Fields(text)\n\t\t\tif len(contents) < len(vertexElement.Properties) {\n\t\t\t\treturn nil, fmt.Errorf("%q element %d has %d values, expected %d: %w", mr.AttributeElement, i, len(contents), len(vertexElement.Properties), io.ErrUnexpectedEOF)\n\t\t\t}\n\n\t\t\tfor _, reader := range asciiReaders {\n\t\t\t\terr = reader.Read(contents, i)\n\t\t\t\tif err != nil {\n\t\t\t\t\treturn nil, err\n\t\t\t\t}\n\t\t\t}\n\n', '\t\t\t}\n\n\t\t\tcontents := strings.Fields(text)\n\n\t\t\t// Every reader checks the columns it consumes itself (see\n\t\t\t// asciiField), so a reader set that leaves trailing columns\n\t\t\t// unclaimed does not trip over lines it never looks at.\n\t\t\tfor _, reader := range asciiReaders {\n\t\t\t\terr = reader.Read(contents, i)\n\t\t\t\tif err != nil {\n\t\t\t\t\treturn nil, fmt.Errorf("%q element %d: %w", mr.AttributeElement, i, err)\n\t\t\t\t}\n\t\t\t}\n\n'), ('formats/ply/reader_vector1.go', '\t"encoding/binary"\n\t"fmt"\n\t"math"\n\t"strconv"\n\n\t"github.com/EliCDavis/polyform/modeling"\n)\n', '\t"encoding/binary"\n\t"fmt"\n\t"math"\n\n\t"github.com/EliCDavis/polyform/modeling"\n)\n'), ('formats/ply/reader_vector1.go', '}\n\nfunc (bav3pr builtAsciiVector1PropertyReader) Read(buf []string, i int64) error {\n\tv, err := strconv.ParseFloat(buf[bav3pr.offset], 32)\n\tif err != nil {\n\t\treturn err\n\t}\n', '}\n\nfunc (bav3pr builtAsciiVector1PropertyReader) Read(buf []string, i int64) error {\n\tv, err := asciiField(buf, bav3pr.offset, bav3pr.plyProperty)\n\tif err != nil {\n\t\treturn err\n\t}\n'), ('formats/ply/reader_vector2.go', '\t"encoding/binary"\n\t"fmt"\n\t"math"\n\t"strconv"\n\n\t"github.com/EliCDavis/polyform/modeling"\n\t"github.com/EliCDavis/vector/vector2"\n', '\t"encoding/binary"\n\t"fmt"\n\t"math"\n\n\t"github.com/EliCDavis/polyform/modeling"\n\t"github.com/EliCDavis/vector/vector2"\n'), ('formats/ply/reader_vector2.go', '}\n\nfunc (bav3pr builtAsciiVector2PropertyReader) Read(buf []string, i int64) error {\n\txParsed, err := strconv.ParseFloat(buf[bav3pr.xOffset], 32)\n\tif err != nil {\n\t\treturn err\n\t}\n\n\tyParsed, err := strconv.ParseFloat(buf[bav3pr.yOffset], 32)\n\tif err != nil {\n\t\treturn err\n\t}\n', '}\n\nfunc (bav3pr builtAsciiVector2PropertyReader) Read(buf []string, i int64) error {\n\txParsed, err := asciiField(buf, bav3pr.xOffset, bav3pr.plyPropertyX)\n\tif err != nil {\n\t\treturn err\n\t}\n\n\tyParsed, err := asciiField(buf, bav3pr.yOffset, bav3pr.plyPropertyY)\n\tif err != nil {\n\t\treturn err\n\t}\n'), ('formats/ply/reader_vector3.go', '\t"encoding/binary"\n\t"fmt"\n\t"math"\n\t"strconv"\n\n\t"github.com/EliCDavis/polyform/modeling"\n\t"github.com/EliCDavis/vector/vector3"\n', '\t"encoding/binary"\n\t"fmt"\n\t"math"\n\n\t"github.com/EliCDavis/polyform/modeling"\n\t"github.com/EliCDavis/vector/vector3"\n'), ('formats/ply/reader_vector3.go', '}\n\nfunc (bav3pr builtAsciiVector3PropertyReader) Read(buf []string, i int64) error {\n\txParsed, err := strconv.ParseFloat(buf[bav3pr.xOffset], 32)\n\tif err != nil {\n\t\treturn err\n\t}\n\n\tyParsed, err := strconv.ParseFloat(buf[bav3pr.yOffset], 32)\n\tif err != nil {\n\t\treturn err\n\t}\n\n\tzParsed, err := strconv.ParseFloat(buf[bav3pr.zOffset], 32)\n\tif err != nil {\n\t\treturn err\n\t}\n', '}\n\nfunc (bav3pr builtAsciiVector3PropertyReader) Read(buf []string, i int64) error {\n\txParsed, err := asciiField(buf, bav3pr.xOffset, bav3pr.plyPropertyX)\n\tif err != nil {\n\t\treturn err\n\t}\n\n\tyParsed, err := asciiField(buf, bav3pr.yOffset, bav3pr.plyPropertyY)\n\tif err != nil {\n\t\treturn err\n\t}\n\n\tzParsed, err := asciiField(buf, bav3pr.zOffset, bav3pr.plyPropertyZ)\n\tif err != nil {\n\t\treturn err\n\t}\n'), ('formats/ply/reader_vector4.go', '\t"encoding/binary"\n\t"fmt"\n\t"math"\n\t"strconv"\n\n\t"github.com/EliCDavis/polyform/modeling"\n\t"github.com/EliCDavis/vector/vector4"\n', '\t"encoding/binary"\n\t"fmt"\n\t"math"\n\n\t"github.com/EliCDavis/polyform/modeling"\n\t"github.com/EliCDavis/vector/vector4"\n'), ('formats/ply/reader_vector4.go', '\t\t\tplyPropertyW:   v4pr.PlyPropertyW,\n\t\t\tmodelAttribute: v4pr.ModelAttribute,\n\t\t\tscalarType:     scalarType,\n\t\t}\n\t}\n\n', '\t\t\tplyPropertyW:   v4pr.PlyPropertyW,\n\t\t\tmodelAttribute: v4pr.ModelAttribute,\n\t\t\tscalarType:     scalarType,\n\t\t\tignorableW:     v4pr.IgnorableW,\n\t\t}\n\t}\n\n'), ('formats/ply/reader_vector4.go', '\tarr            []vector4.Float64\n\tscalarType     ScalarPropertyType\n\tmodelAttribute string\n\txOffset        int\n\tyOffset        int\n\tzOffset        int\n', '\tarr            []vector4.Float64\n\tscalarType     ScalarPropertyType\n\tmodelAttribute string\n\tignorableW     bool\n\txOffset        int\n\tyOffset        int\n\tzOffset        int\n'), ('formats/ply/reader_vector4.go', '}\n\nfunc (bav3pr builtAsciiVector4PropertyReader) Read(buf []string, i int64) error {\n\txParsed, err := strconv.ParseFloat(buf[bav3pr.xOffset], 32)\n\tif err != nil {\n\t\treturn err\n\t}\n\n\tyParsed, err := strconv.ParseFloat(buf[bav3pr.yOffset], 32)\n\tif err != nil {\n\t\treturn err\n\t}\n\n\tzParsed, err := strconv.ParseFloat(buf[bav3pr.zOffset], 32)\n\tif err != nil {\n\t\treturn err\n\t}\n\n\twParsed, err := strconv.ParseFloat(buf[bav3pr.wOffset], 32)\n\tif err != nil {\n\t\treturn err\n\t}\n\n\tv := vector4.New(xParsed, yParsed, zParsed, wParsed)\n', '}\n\nfunc (bav3pr builtAsciiVector4PropertyReader) Read(buf []string, i int64) error {\n\txParsed, err := asciiField(buf, bav3pr.xOffset, bav3pr.plyPropertyX)\n\tif err != nil {\n\t\treturn err\n\t}\n\n\tyParsed, err := asciiField(buf, bav3pr.yOffset, bav3pr.plyPropertyY)\n\tif err != nil {\n\t\treturn err\n\t}\n\n\tzParsed, err := asciiField(buf, bav3pr.zOffset, bav3pr.plyPropertyZ)\n\tif err != nil {\n\t\treturn err\n\t}\n\n\t// An ignorable W that is not there reads as fully opaque / unit weight,\n\t// in the units of the other three components.\n\twParsed := 1.\n\tif bav3pr.scalarType == UChar {\n\t\twParsed = 255.\n\t}\n\tif bav3pr.wOffset < len(buf) || !bav3pr.ignorableW {\n\t\twParsed, err = asciiField(buf, bav3pr.wOffset, bav3pr.plyPropertyW)\n\t\tif err != nil {\n\t\t\treturn err\n\t\t}\n\t}\n\n\tv := vector4.New(xParsed, yParsed, zParsed, wParsed)\n')]
+R41_OK=[('formats/ply/reader.go', '\tRead(buf []string, i int64) error\n}\n\ntype binaryPropertyReader interface {\n\tbuiltPropertyReader\n\tRead(buf []byte, i int64)\n', '\tRead(buf []string, i int64) error\n}\n\n// asciiField parses the value found in the given column of an ASCII element\n// line on behalf of the named property.\nfunc asciiField(buf []string, column int, property string) (float64, error) {\n\tif column >= len(buf) {\n\t\treturn 0, fmt.Errorf("line has %d values, none left for property %q: %w", len(buf), property, io.ErrUnexpectedEOF)\n\t}\n\treturn strconv.ParseFloat(buf[column], 32)\n}\n\ntype binaryPropertyReader interface {\n\tbuiltPropertyReader\n\tRead(buf []byte, i int64)\n'), ('formats/ply/reader.go', '\t\t\t}\n\n\t\t\tcontents := strings.Fields(text)\n\t\t\tif len(contents) < len(vertexElement.Properties) {\n\t\t\t\treturn nil, fmt.Errorf("%q element %d has %d values, expected %d: %w", mr.AttributeElement, i, len(contents), len(vertexElement.Properties), io.ErrUnexpectedEOF)\n\t\t\t}\n\n\t\t\tfor _, reader := range asciiReaders {\n\t\t\t\terr = reader.Read(contents, i)\n\t\t\t\tif err != nil {\n\t\t\t\t\treturn nil, err\n\t\t\t\t}\n\t\t\t}\n\n', '\t\t\t}\n\n\t\t\tcontents := strings.Fields(text)\n\n\t\t\t// Every reader checks the columns it consumes itself (see\n\t\t\t// asciiField), so a reader set that leaves trailing columns\n\t\t\t// unclaimed does not trip over lines it never looks at.\n\t\t\tfor _, reader := range asciiReaders {\n\t\t\t\terr = reader.Read(contents, i)\n\t\t\t\tif err != nil {\n\t\t\t\t\treturn nil, fmt.Errorf("%q element %d: %w", mr.AttributeElement, i, err)\n\t\t\t\t}\n\t\t\t}\n\n'), ('formats/ply/reader_vector1.go', '\t"encoding/binary"\n\t"fmt"\n\t"math"\n\t"strconv"\n\n\t"github.com/EliCDavis/polyform/modeling"\n)\n', '\t"encoding/binary"\n\t"fmt"\n\t"math"\n\n\t"github.com/EliCDavis/polyform/modeling"\n)\n'), ('formats/ply/reader_vector1.go', '}\n\nfunc (bav3pr builtAsciiVector1PropertyReader) Read(buf []string, i int64) error {\n\tv, err := strconv.ParseFloat(buf[bav3pr.offset], 32)\n\tif err != nil {\n\t\treturn err\n\t}\n', '}\n\nfunc (bav3pr builtAsciiVector1PropertyReader) Read(buf []string, i int64) error {\n\tv, err := asciiField(buf, bav3pr.offset, bav3pr.plyProperty)\n\tif err != nil {\n\t\treturn err\n\t}\n'), ('formats/ply/reader_vector2.go', '\t"encoding/binary"\n\t"fmt"\n\t"math"\n\t"strconv"\n\n\t"github.com/EliCDavis/polyform/modeling"\n\t"github.com/EliCDavis/vector/vector2"\n', '\t"encoding/binary"\n\t"fmt"\n\t"math"\n\n\t"github.com/EliCDavis/polyform/modeling"\n\t"github.com/EliCDavis/vector/vector2"\n'), ('formats/ply/reader_vector2.go', '}\n\nfunc (bav3pr builtAsciiVector2PropertyReader) Read(buf []string, i int64) error {\n\txParsed, err := strconv.ParseFloat(buf[bav3pr.xOffset], 32)\n\tif err != nil {\n\t\treturn err\n\t}\n\n\tyParsed, err := strconv.ParseFloat(buf[bav3pr.yOffset], 32)\n\tif err != nil {\n\t\treturn err\n\t}\n', '}\n\nfunc (bav3pr builtAsciiVector2PropertyReader) Read(buf []string, i int64) error {\n\txParsed, err := asciiField(buf, bav3pr.xOffset, bav3pr.plyPropertyX)\n\tif err != nil {\n\t\treturn err\n\t}\n\n\tyParsed, err := asciiField(buf, bav3pr.yOffset, bav3pr.plyPropertyY)\n\tif err != nil {\n\t\treturn err\n\t}\n'), ('formats/ply/reader_vector3.go', '\t"encoding/binary"\n\t"fmt"\n\t"math"\n\t"strconv"\n\n\t"github.com/EliCDavis/polyform/modeling"\n\t"github.com/EliCDavis/vector/vector3"\n', '\t"encoding/binary"\n\t"fmt"\n\t"math"\n\n\t"github.com/EliCDavis/polyform/modeling"\n\t"github.com/EliCDavis/vector/vector3"\n'), ('formats/ply/reader_vector3.go', '}\n\nfunc (bav3pr builtAsciiVector3PropertyReader) Read(buf []string, i int64) error {\n\txParsed, err := strconv.ParseFloat(buf[bav3pr.xOffset], 32)\n\tif err != nil {\n\t\treturn err\n\t}\n\n\tyParsed, err := strconv.ParseFloat(buf[bav3pr.yOffset], 32)\n\tif err != nil {\n\t\treturn err\n\t}\n\n\tzParsed, err := strconv.ParseFloat(buf[bav3pr.zOffset], 32)\n\tif err != nil {\n\t\treturn err\n\t}\n', '}\n\nfunc (bav3pr builtAsciiVector3PropertyReader) Read(buf []string, i int64) error {\n\txParsed, err := asciiField(buf, bav3pr.xOffset, bav3pr.plyPropertyX)\n\tif err != nil {\n\t\treturn err\n\t}\n\n\tyParsed, err := asciiField(buf, bav3pr.yOffset, bav3pr.plyPropertyY)\n\tif err != nil {\n\t\treturn err\n\t}\n\n\tzParsed, err := asciiField(buf, bav3pr.zOffset, bav3pr.plyPropertyZ)\n\tif err != nil {\n\t\treturn err\n\t}\n'), ('formats/ply/reader_vector4.go', '\t"encoding/binary"\n\t"fmt"\n\t"math"\n\t"strconv"\n\n\t"github.com/EliCDavis/polyform/modeling"\n\t"github.com/EliCDavis/vector/vector4"\n', '\t"encoding/binary"\n\t"fmt"\n\t"math"\n\n\t"github.com/EliCDavis/polyform/modeling"\n\t"github.com/EliCDavis/vector/vector4"\n'), ('formats/ply/reader_vector4.go', '}\n\nfunc (bav3pr builtAsciiVector4PropertyReader) Read(buf []string, i int64) error {\n\txParsed, err := strconv.ParseFloat(buf[bav3pr.xOffset], 32)\n\tif err != nil {\n\t\treturn err\n\t}\n\n\tyParsed, err := strconv.ParseFloat(buf[bav3pr.yOffset], 32)\n\tif err != nil {\n\t\treturn err\n\t}\n\n\tzParsed, err := strconv.ParseFloat(buf[bav3pr.zOffset], 32)\n\tif err != nil {\n\t\treturn err\n\t}\n\n\twParsed, err := strconv.ParseFloat(buf[bav3pr.wOffset], 32)\n\tif err != nil {\n\t\treturn err\n\t}\n\n\tv := vector4.New(xParsed, yParsed, zParsed, wParsed)\n', '}\n\nfunc (bav3pr builtAsciiVector4PropertyReader) Read(buf []string, i int64) error {\n\txParsed, err := asciiField(buf, bav3pr.xOffset, bav3pr.plyPropertyX)\n\tif err != nil {\n\t\treturn err\n\t}\n\n\tyParsed, err := asciiField(buf, bav3pr.yOffset, bav3pr.plyPropertyY)\n\tif err != nil {\n\t\treturn err\n\t}\n\n\tzParsed, err := asciiField(buf, bav3pr.zOffset, bav3pr.plyPropertyZ)\n\tif err != nil {\n\t\treturn err\n\t}\n\n\twParsed, err := asciiField(buf, bav3pr.wOffset, bav3pr.plyPropertyW)\n\tif err != nil {\n\t\treturn err\n\t}\n\n\tv := vector4.New(xParsed, yParsed, zParsed, wParsed)\n')]
+R41_COLZERO=[('formats/ply/reader.go', '\tRead(buf []string, i int64) error\n}\n\ntype binaryPropertyReader interface {\n\tbuiltPropertyReader\n\tRead(buf []byte, i int64)\n', '\tRead(buf []string, i int64) error\n}\n\n// asciiField parses the value found in the given column of an ASCII element\n// line on behalf of the named property.\nfunc asciiField(buf []string, column int, property string) (float64, error) {\n\tif column >= len(buf) {\n\t\treturn 0, nil\n\t}\n\treturn strconv.ParseFloat(buf[column], 32)\n}\n\ntype binaryPropertyReader interface {\n\tbuiltPropertyReader\n\tRead(buf []byte, i int64)\n'), ('formats/ply/reader.go', '\t\t\t}\n\n\t\t\tcontents := strings.Fields(text)\n\t\t\tif len(contents) < len(vertexElement.Properties) {\n\t\t\t\treturn nil, fmt.Errorf("%q element %d has %d values, expected %d: %w", mr.AttributeElement, i, len(contents), len(vertexElement.Properties), io.ErrUnexpectedEOF)\n\t\t\t}\n\n\t\t\tfor _, reader := range asciiReaders {\n\t\t\t\terr = reader.Read(contents, i)\n\t\t\t\tif err != nil {\n\t\t\t\t\treturn nil, err\n\t\t\t\t}\n\t\t\t}\n\n', '\t\t\t}\n\n\t\t\tcontents := strings.Fields(text)\n\n\t\t\t// Every reader checks the columns it consumes itself (see\n\t\t\t// asciiField), so a reader set that leaves trailing columns\n\t\t\t// unclaimed does not trip over lines it never looks at.\n\t\t\tfor _, reader := range asciiReaders {\n\t\t\t\terr = reader.Read(contents, i)\n\t\t\t\tif err != nil {\n\t\t\t\t\treturn nil, fmt.Errorf("%q element %d: %w", mr.AttributeElement, i, err)\n\t\t\t\t}\n\t\t\t}\n\n'), ('formats/ply/reader_vector1.go', '\t"encoding/binary"\n\t"fmt"\n\t"math"\n\t"strconv"\n\n\t"github.com/EliCDavis/polyform/modeling"\n)\n', '\t"encoding/binary"\n\t"fmt"\n\t"math"\n\n\t"github.com/EliCDavis/polyform/modeling"\n)\n'), ('formats/ply/reader_vector1.go', '}\n\nfunc (bav3pr builtAsciiVector1PropertyReader) Read(buf []string, i int64) error {\n\tv, err := strconv.ParseFloat(buf[bav3pr.offset], 32)\n\tif err != nil {\n\t\treturn err\n\t}\n', '}\n\nfunc (bav3pr builtAsciiVector1PropertyReader) Read(buf []string, i int64) error {\n\tv, err := asciiField(buf, bav3pr.offset, bav3pr.plyProperty)\n\tif err != nil {\n\t\treturn err\n\t}\n'), ('formats/ply/reader_vector2.go', '\t"encoding/binary"\n\t"fmt"\n\t"math"\n\t"strconv"\n\n\t"github.com/EliCDavis/polyform/modeling"\n\t"github.com/EliCDavis/vector/vector2"\n', '\t"encoding/binary"\n\t"fmt"\n\t"math"\n\n\t"github.com/EliCDavis/polyform/modeling"\n\t"github.com/EliCDavis/vector/vector2"\n'), ('formats/ply/reader_vector2.go', '}\n\nfunc (bav3pr builtAsciiVector2PropertyReader) Read(buf []string, i int64) error {\n\txParsed, err := strconv.ParseFloat(buf[bav3pr.xOffset], 32)\n\tif err != nil {\n\t\treturn err\n\t}\n\n\tyParsed, err := strconv.ParseFloat(buf[bav3pr.yOffset], 32)\n\tif err != nil {\n\t\treturn err\n\t}\n', '}\n\nfunc (bav3pr builtAsciiVector2PropertyReader) Read(buf []string, i int64) error {\n\txParsed, err := asciiField(buf, bav3pr.xOffset, bav3pr.plyPropertyX)\n\tif err != nil {\n\t\treturn err\n\t}\n\n\tyParsed, err := asciiField(buf, bav3pr.yOffset, bav3pr.plyPropertyY)\n\tif err != nil {\n\t\treturn err\n\t}\n'), ('formats/ply/reader_vector3.go', '\t"encoding/binary"\n\t"fmt"\n\t"math"\n\t"strconv"\n\n\t"github.com/EliCDavis/polyform/modeling"\n\t"github.com/EliCDavis/vector/vector3"\n', '\t"encoding/binary"\n\t"fmt"\n\t"math"\n\n\t"github.com/EliCDavis/polyform/modeling"\n\t"github.com/EliCDavis/vector/vector3"\n'), ('formats/ply/reader_vector3.go', '}\n\nfunc (bav3pr builtAsciiVector3PropertyReader) Read(buf []string, i int64) error {\n\txParsed, err := strconv.ParseFloat(buf[bav3pr.xOffset], 32)\n\tif err != nil {\n\t\treturn err\n\t}\n\n\tyParsed, err := strconv.ParseFloat(buf[bav3pr.yOffset], 32)\n\tif err != nil {\n\t\treturn err\n\t}\n\n\tzParsed, err := strconv.ParseFloat(buf[bav3pr.zOffset], 32)\n\tif err != nil {\n\t\treturn err\n\t}\n', '}\n\nfunc (bav3pr builtAsciiVector3PropertyReader) Read(buf []string, i int64) error {\n\txParsed, err := asciiField(buf, bav3pr.xOffset, bav3pr.plyPropertyX)\n\tif err != nil {\n\t\treturn err\n\t}\n\n\tyParsed, err := asciiField(buf, bav3pr.yOffset, bav3pr.plyPropertyY)\n\tif err != nil {\n\t\treturn err\n\t}\n\n\tzParsed, err := asciiField(buf, bav3pr.zOffset, bav3pr.plyPropertyZ)\n\tif err != nil {\n\t\treturn err\n\t}\n'), ('formats/ply/reader_vector4.go', '\t"encoding/binary"\n\t"fmt"\n\t"math"\n\t"strconv"\n\n\t"github.com/EliCDavis/polyform/modeling"\n\t"github.com/EliCDavis/vector/vector4"\n', '\t"encoding/binary"\n\t"fmt"\n\t"math"\n\n\t"github.com/EliCDavis/polyform/modeling"\n\t"github.com/EliCDavis/vector/vector4"\n'), ('formats/ply/reader_vector4.go', '}\n\nfunc (bav3pr builtAsciiVector4PropertyReader) Read(buf []string, i int64) error {\n\txParsed, err := strconv.ParseFloat(buf[bav3pr.xOffset], 32)\n\tif err != nil {\n\t\treturn err\n\t}\n\n\tyParsed, err := strconv.ParseFloat(buf[bav3pr.yOffset], 32)\n\tif err != nil {\n\t\treturn err\n\t}\n\n\tzParsed, err := strconv.ParseFloat(buf[bav3pr.zOffset], 32)\n\tif err != nil {\n\t\treturn err\n\t}\n\n\twParsed, err := strconv.ParseFloat(buf[bav3pr.wOffset], 32)\n\tif err != nil {\n\t\treturn err\n\t}\n\n\tv := vector4.New(xParsed, yParsed, zParsed, wParsed)\n', '}\n\nfunc (bav3pr builtAsciiVector4PropertyReader) Read(buf []string, i int64) error {\n\txParsed, err := asciiField(buf, bav3pr.xOffset, bav3pr.plyPropertyX)\n\tif err != nil {\n\t\treturn err\n\t}\n\n\tyParsed, err := asciiField(buf, bav3pr.yOffset, bav3pr.plyPropertyY)\n\tif err != nil {\n\t\treturn err\n\t}\n\n\tzParsed, err := asciiField(buf, bav3pr.zOffset, bav3pr.plyPropertyZ)\n\tif err != nil {\n\t\treturn err\n\t}\n\n\twParsed, err := asciiField(buf, bav3pr.wOffset, bav3pr.plyPropertyW)\n\tif err != nil {\n\t\treturn err\n\t}\n\n\tv := vector4.New(xParsed, yParsed, zParsed, wParsed)\n')]
+def multi(kind,name,eds,expect=None,note=None):
+    f,a,b=eds[0]
+    entry(name,kind,f,a,b,expect,note,eds[1:])
+multi("mutant","M61: ply ASCII vertex readers: width check moved into asciiField, Vector4 fills a missing trailing alpha with 1/255 (seed C14-r41)",R41,["TOK-2"],"existing tests: pass")
+multi("mutant","M62: ply ASCII vertex readers: asciiField answers 0, nil for a column that is not on the line",R41_COLZERO,["TOK-2"])
+multi("refactor","R28: ply ASCII vertex readers: width check moved into the per-column helper asciiField, every column (W included) fails on a missing token",R41_OK)
+
 # sanity: every fragment present when applied sequentially
 bad=0
 for e in out:
